@@ -68,6 +68,7 @@ Step(e) ==
     \/ e.ev = "par_begin"   /\ obs' = NoObs /\ Frame
     \/ e.ev = "race_report" /\ ARace(e)
     \/ e.ev = "wfault"      /\ AWFault(e)
+    \/ e.ev = "merge_fsweep" /\ AMergeFSweep(e)
     \/ e.ev = "reset"       /\ AReset
     \/ e.ev = "skip"        /\ obs' = NoObs /\ Frame
 
